@@ -26,8 +26,8 @@ def generate(rng: random.Random, tier: str):
     thorough = tier == 'thorough'
     cases = []
     for _ in range(120 if thorough else 24):
-        cases.append({'kind': 'recon', 'traj': rng.choice(['cart_full', 'cart_full', 'cart_under', 'radial']), 'n': rng.choice([4, 4, 6]), 'coils': rng.choice([2, 3]),
-                      'csm': rng.random() < 0.7, 'dcf': rng.random() < 0.5, 'noise': rng.random() < 0.4, 'lam': rng.choice([0.0, 0.0, 0.1, 2.0]),
+        cases.append({'kind': 'recon', 'traj': rng.choice(['cart_full', 'cart_full', 'cart_under', 'radial']), 'n': rng.choice([4, 4, 6]), 'coils': rng.choice([1, 2, 3]),
+                      'scale': rng.choice([1.0, 1.0, 1e-3, 1e-6]), 'csm': rng.random() < 0.7, 'dcf': rng.random() < 0.5, 'noise': rng.random() < 0.4, 'lam': rng.choice([0.0, 0.0, 0.1, 2.0]),
                       'reg_data': rng.choice(['zero', 'image']), 'reg_op': rng.choice(['identity', 'diag']), 'iters': rng.choice([1, 2, 3, 5]), 'seed': rng.randrange(1 << 30)})
     # 3-D Cartesian data (k2 > 1, different from k1) with a noise scan, and spatially varying regularisation weights with zeros
     for i in range(24 if thorough else 6):
@@ -110,7 +110,8 @@ def run(case, drv) -> Outcome:
     dcf = DcfData.from_traj_voronoi(kd.traj) if case['dcf'] else None
     # consistent data: y = F S x
     x_true = img if case['csm'] else img.expand(1, coils, nz, n, n).clone()
-    y = F(S(img)[0] if S is not None else x_true)[0]
+    # raw scanner units can be tiny or huge: the data scale is part of the configuration (the reconstructions are homogeneous in the data)
+    y = case.get('scale', 1.0) * F(S(img)[0] if S is not None else x_true)[0]
     object.__setattr__(kd, 'data', y.to(torch.complex64))
     noise = None
     if case['noise']:
@@ -215,7 +216,7 @@ def run(case, drv) -> Outcome:
             sol = torch.linalg.solve(H, rhs)
             if rel(full.data, sol) > 20 * TOL:
                 viol = viol or v('least-squares', f'with many iterations the result differs from the (regularised) least-squares image (rel {rel(full.data, sol):.2e})')
-            if lam_vec is None and lam == 0.0 and noise is None and case['traj'] == 'cart_full' and rel(full.data, (img if case['csm'] else x_true).reshape(-1).to(torch.complex128)) > 20 * TOL:
+            if lam_vec is None and lam == 0.0 and noise is None and case['traj'] == 'cart_full' and rel(full.data, case.get('scale', 1.0) * (img if case['csm'] else x_true).reshape(-1).to(torch.complex128)) > 20 * TOL:
                 viol = viol or v('consistent-data', 'consistent fully sampled data does not reproduce the true image')
     return Outcome(key=('recon', cfg), corr=corr, viol=viol, branches=[f'traj:{case["traj"]}', f'csm:{case["csm"]}', f'dcf:{case["dcf"]}', f'noise:{case["noise"]}', f'lam:{case["lam"]}', f'nz:{nz}',
                                                                       f'iters:{case["iters"]}'], sample=case)
